@@ -1,2 +1,3 @@
 pub mod range;
 pub mod de;
+pub mod xlsx_sheet;
